@@ -363,7 +363,7 @@ func TestC07(t *testing.T) {
 		if err := conn.send(msg.Bytes()); err != nil {
 			V.HarnessError(rt, "send over the backend connection: %v", err)
 		}
-		rs, err := s.in.settle(conn.send, 1)
+		rs, err := s.in.settle(conn.sendStrict, 1)
 		if _, lost := err.(labLost); lost {
 			failf(rt, "%v", err)
 		} else if err != nil {
